@@ -141,7 +141,7 @@ def gen_case(rng, k, world, force=None):
     L = rng.choice([20, 25, 30, 40, 50, 60])
     layout = force or rng.choice(LAYOUTS)
     mode = rng.choice(["yaml", "bam", "supplied", "supplied"])
-    min_avg = rng.choice([None, None, None, 1.0, 3.0, 5.0, 10.0])
+    min_avg = rng.choice([None, None, None, 1.0, 3.0, 5.0, 10.0, 2.5, 3.9, 4.2, 0.5])      # incl. non-integral minima
     m = 2.0 if min_avg is None else min_avg
     D = rng.choice([8, 12, 20, 30, 45])
     if D <= m + 1:
@@ -368,7 +368,9 @@ def extract_evidence(case, world, bam):
     raw = Profile("user_provided", cn_solution=["1", "1"], **params)      # no neutral region: Sample() cannot raise a guard error
     s = Sample(g, raw, bam)
     cov = s.coverage
-    ev = {"sites": [int(cov.total(p)) for p in cov._coverage], "min_avg": Fraction(repr(float(raw.min_avg_coverage))),
+    # the minimum the user configured (the profile's own attribute only when nothing was configured)
+    ev = {"sites": [int(cov.total(p)) for p in cov._coverage],
+          "min_avg": Fraction(repr(float(case["min_avg"] if case["min_avg"] is not None else raw.min_avg_coverage))),
           "neutral": None, "neutral_value": Fraction(0), "regions": [], "cn_min": 0}
     if case["mode"] == "supplied":
         ev["struct"] = "Supplied"
